@@ -2657,8 +2657,8 @@ macro_rules! mat_impl_mat4 {
                 let mut m = Self::zero();
                 m[(0, 0)] = (two * near) / (right - left);
                 m[(1, 1)] = (two * near) / (top - bottom);
-                m[(0, 2)] = (right + left) / (right - left);
-                m[(1, 2)] = (top + bottom) / (top - bottom);
+                m[(0, 2)] = -(right + left) / (right - left);
+                m[(1, 2)] = -(top + bottom) / (top - bottom);
                 m[(2, 2)] = far / (far - near);
                 m[(3, 2)] = T::one();
                 m[(2, 3)] = -(far * near) / (far - near);
@@ -2678,6 +2678,8 @@ macro_rules! mat_impl_mat4 {
             /// (right-handed, zero-to-one depth clip planes).
             pub fn frustum_rh_zo (o: FrustumPlanes<T>) -> Self where T: Real {
                 let mut m = Self::frustum_lh_zo(o);
+                m[(0, 2)] = -m[(0, 2)];
+                m[(1, 2)] = -m[(1, 2)];
                 m[(2, 2)] = -m[(2, 2)];
                 m[(3, 2)] = -m[(3, 2)];
                 m
@@ -2686,6 +2688,8 @@ macro_rules! mat_impl_mat4 {
             /// (right-handed, negative-one-to-one depth clip planes).
             pub fn frustum_rh_no (o: FrustumPlanes<T>) -> Self where T: Real {
                 let mut m = Self::frustum_lh_no(o);
+                m[(0, 2)] = -m[(0, 2)];
+                m[(1, 2)] = -m[(1, 2)];
                 m[(2, 2)] = -m[(2, 2)];
                 m[(3, 2)] = -m[(3, 2)];
                 m
